@@ -2,8 +2,12 @@
 
 Domain: a signer (key material x provenance of the paramiko object), a message, a signature
 algorithm (RSA), a verifier (same object / same key obtained another way / another key), the
-data given to the verifier (same / altered) and a mutation of the signature blob (none, bit
-flip, truncation, extension, algorithm-name edits, inner-encoding edits, random bytes).
+data given to the verifier (same / altered), the SHAPE of the genuine signature that is selected
+among several produced by the signer (ECDSA: r / s / both / neither carry the 0x00 sign byte of a
+top-bit-set mpint, r or s one byte shorter than the field; RSA: leading zero octet) and a mutation
+of the signature blob (none, bit flip, truncation, extension, algorithm-name edits, inner-encoding
+edits, structure-aware re-encodings of the genuine integers - sign byte dropped (= negative on the
+wire), zero-padded (same value), 0xff-padded / sign-extended, first byte dropped - random bytes).
 Oracle: verify_ssh_sig returns exactly True or False and never raises; the value equals the
 independent strict verifier vlib.keys.RefPub.verify (strict RFC 4253 blob parse + `cryptography`
 verification under a reference public key that was obtained without paramiko); an unmodified
@@ -16,18 +20,24 @@ import io
 from hypothesis import strategies as st
 
 from vlib import core
+from vlib import keymat as KM
 from vlib import keys as K
 from vlib import refssh as R
 
 PROPERTY = "C35"
 LEVEL = "exploration"
 RULE = (
-    "hypothesis draws (key material: 27 bundled key files + fresh Ed25519 seeds / ECDSA scalars; signer provenance: "
+    "hypothesis draws (key material: 27 bundled key files + fresh Ed25519 seeds / ECDSA scalars (random, and constructed "
+    "ones whose public x or y has leading zero bytes, smallest, largest); signer provenance: "
     "private file, file object, from_path, cryptography object as used by generate(), file+certificate; verifier: same "
     "object, same key via data=/msg=/from_type_string/AgentKey.inner_key/certificate blob/other private provenance, or "
-    "another key; RSA algorithm among 6 names; message 0-2000 bytes; data same/altered; blob mutation none/bitflip/"
+    "another key; RSA algorithm among 6 names; message 0-2000 bytes; data same/altered; shape of the genuine signature "
+    "selected among up to 1200 signatures of the signer (ECDSA r/s/both/neither with mpint sign byte, r/s short; RSA leading "
+    "zero octet); blob mutation none/bitflip/"
     "truncate/extend/algorithm name (other type, hash, curve, unknown, empty, invalid UTF-8)/signature length/ECDSA inner "
-    "integers (non-minimal, negative, zero, >= order, 4096-bit, missing, trailing, (r,n-s))/zero-tail truncation (outer, inner)/inner length prefixes/random "
+    "integers (non-minimal, negative, zero, >= order, 4096-bit, missing, trailing, (r,n-s))/re-encoding of the genuine integers "
+    "(ECDSA r, s or both; RSA/Ed25519 signature string: sign byte dropped, zero-padded by 1/2/8, 0xff-padded, sign byte replaced by "
+    "0xff, first byte dropped; all length prefixes corrected)/zero-tail truncation (outer, inner)/inner length prefixes/random "
     "bytes); non-trivial = anything but 'unmodified signature checked by the signing object itself'; distinct by SHA-1 "
     "of (verifier, data, blob); excluded by construction (counted): blobs that make an ECDSA verifier inflate a "
     "zero-padded mpint of more than 64 KiB (answers False, but only after 10-30 s of quadratic inflate_long)"
@@ -58,6 +68,10 @@ ALG_EDITS = [
     b"ssh-ed25519\xc3",
     b"ecdsa-sha2-nistp256\xe2\x82",
 ]
+REENC_OPS = ["drop-lead-zero", "drop-lead-zero", "pad-zero-1", "pad-zero-2", "pad-zero-8", "pad-ff-1", "pad-ff-4", "neg-extend", "drop-first"]
+# shape of the genuine signature to select: weights by repetition ("any" = first signature produced)
+SELS_EC = ["any"] * 22 + ["r-sign"] * 4 + ["s-sign"] * 4 + ["both-sign"] * 4 + ["no-sign"] * 4 + ["r-short", "s-short"]
+SELS_RSA = ["any"] * 39 + ["lead-zero"]
 CERTS = {"t:rsa": "rsa.key-cert.pub", "t:ed25519": "ed25519.key-cert.pub", "t:ecdsa-256": "ecdsa-256.key-cert.pub"}
 PRIV_PROVS = ["file", "fileobj", "object", "from_path", "file+cert"]
 PUB_PROVS = ["data", "msg", "type_string", "agent_inner", "certdata"]
@@ -189,6 +203,9 @@ def keyids(draw, cls=None):
     if cls == "ECDSAKey" and kind == 0:
         curve = draw(st.sampled_from(["nistp256", "nistp384", "nistp521"]))
         return ["ec", curve, draw(st.integers(1, K.curve_order(curve) - 1))]
+    if cls == "ECDSAKey" and kind == 1:
+        curve = draw(st.sampled_from(["nistp256", "nistp384", "nistp521"]))
+        return ["ec", curve, draw(st.sampled_from(KM.ec_special_scalars(curve)))]
     return draw(st.sampled_from(by[cls]))
 
 
@@ -210,6 +227,8 @@ mutations = st.one_of(
             ["nonminimal", "neg-r", "neg-s", "neg-both", "zero-r", "zero-s", "r+n", "s+n", "huge-r", "huge-s", "missing-s", "empty", "trailing", "swap", "n-s", "small", "minus-one"]
         ),
     ).map(list),
+    st.tuples(st.just("reenc"), st.sampled_from(["r", "s", "both"]), st.sampled_from(REENC_OPS)).map(list),
+    st.tuples(st.just("reenc"), st.sampled_from(["r", "s", "both"]), st.sampled_from(REENC_OPS)).map(list),
     st.tuples(st.just("inner-raw"), st.binary(max_size=24)).map(list),
     st.just(["zero-tail"]),
     st.just(["inner-zero-tail"]),
@@ -235,6 +254,7 @@ def recipes(draw):
         verifier = draw(keyids(cls if vk == "other-key-same-class" else None))
         vprov = draw(st.sampled_from(provs_for(verifier, False)))
     data = draw(st.sampled_from(["same", "same", "same", "flip", "append", "drop", "empty", "other"]))
+    sel = draw(st.sampled_from(SELS_EC if cls == "ECDSAKey" else SELS_RSA)) if cls != "Ed25519Key" else "any"
     return {
         "signer": signer,
         "sprov": sprov,
@@ -243,6 +263,7 @@ def recipes(draw):
         "verifier": verifier,
         "vprov": vprov,
         "data": data,
+        "sel": sel,
         "mut": draw(mutations),
         "aux": draw(st.integers(0, 9999)),
     }
@@ -299,8 +320,60 @@ def _inner(kind, r, s, order):
     raise AssertionError(kind)
 
 
-def realise(rc):
-    """recipe -> (data, blob, applied) ; applied False when the mutation does not apply to this key type."""
+def sig_shape(keyid, blob):
+    """Structural facts about a GENUINE signature blob (set of names). ECDSA, per integer: "-sign" = the mpint
+    carries the 0x00 sign byte (top bit of the magnitude set), "-short" = fewer bytes than the field; RSA:
+    "lead-zero" = the signature string starts with a zero octet."""
+    cls = key_class(keyid)
+    alg, sig = _split(blob)
+    out = set()
+    if cls == "ECDSAKey":
+        rd = R.Reader(sig)
+        width = (ref_public(keyid).bits + 7) // 8
+        for name in ("r", "s"):
+            body = rd.string()
+            if body[:1] == b"\x00":
+                out.add(name + "-sign")
+            elif len(body) < width:
+                out.add(name + "-short")
+        out.add("both-sign" if {"r-sign", "s-sign"} <= out else ("no-sign" if not {"r-sign", "s-sign"} & out else "one-sign"))
+    elif cls == "RSAKey" and sig[:1] == b"\x00":
+        out.add("lead-zero")
+    return out
+
+
+def select_signature(sign, keyid, msg, want, limit=1200):
+    """(msg', blob, found): the first signature over msg, msg#0, msg#1, ... whose shape has ``want``
+    (ECDSA sign bytes: every 2nd-4th signature; short integers / RSA leading zero: one in 256)."""
+    blob = sign(msg)
+    if want == "any" or want in sig_shape(keyid, blob):
+        return msg, blob, True
+    for i in range(limit):
+        cand = msg + b"#%d" % i
+        bl = sign(cand)
+        if want in sig_shape(keyid, bl):
+            return cand, bl, True
+    return msg, blob, False
+
+
+def _reenc(body, op):
+    """Re-encode one integer string of a genuine signature; None when the op does not apply to these bytes."""
+    if op == "drop-lead-zero":  # ECDSA mpint: the sign byte goes -> the same bits now denote a negative value
+        return body[1:] if body[:1] == b"\x00" and len(body) > 1 else None
+    if op == "neg-extend":  # sign byte 0x00 -> 0xff: negative, same length
+        return b"\xff" + body[1:] if body[:1] == b"\x00" and len(body) > 1 else None
+    if op.startswith("pad-zero-"):  # same value, non-minimal
+        return b"\x00" * int(op[9:]) + body
+    if op.startswith("pad-ff-"):  # negative
+        return b"\xff" * int(op[7:]) + body
+    if op == "drop-first":
+        return body[1:]
+    raise AssertionError(op)
+
+
+def realise(rc, info=None):
+    """recipe -> (data, blob, applied) ; applied False when the mutation does not apply to this key type.
+    ``info`` (dict) receives "shape" (sig_shape of the genuine signature) and "sel" / "sel_found"."""
     signer = get_obj(rc["signer"], rc["sprov"])
     msg = bytes(rc["msg"])
     mut = list(rc["mut"])
@@ -312,7 +385,20 @@ def realise(rc):
             return signer.sign_ssh_data(m).asbytes()
         return signer.sign_ssh_data(m, rc["alg"]).asbytes()
 
+    sel = rc.get("sel", "any")
+    if kind == "reenc" and mut[2] in ("drop-lead-zero", "neg-extend"):
+        # these re-encodings need the byte they remove: select a genuine signature that has it
+        if cls == "ECDSAKey":
+            sel = {"r": "r-sign", "s": "s-sign", "both": "both-sign"}[mut[1]]
+        elif cls == "RSAKey":
+            sel = "lead-zero"
+    if cls == "Ed25519Key" or (cls == "RSAKey" and sel != "lead-zero") or (cls == "ECDSAKey" and sel == "lead-zero"):
+        sel = "any"
     applied = True
+    if kind in ("zero-tail", "inner-zero-tail") or (kind == "siglen" and mut[1] == "strip-zeros"):
+        sel = "any"  # these run their own directed search below
+    if info is not None:
+        info["sel"], info["sel_found"] = sel, True
     if kind == "zero-tail":
         # directed search (deterministic given the recipe): a message whose signature ends in a zero byte,
         # then the blob loses that byte without the length field being corrected
@@ -326,8 +412,12 @@ def realise(rc):
         if blob is None:
             blob, applied = sign(msg), False
     else:
-        blob = sign(msg)
+        msg, blob, found = select_signature(sign, rc["signer"], msg, sel)
+        if info is not None:
+            info["sel_found"] = found
     alg, sig = _split(blob)
+    if info is not None:
+        info["shape"] = sig_shape(rc["signer"], blob)
     if kind == "zero-tail" and applied:
         blob = blob[:-1]
     if kind in ("none", "zero-tail"):
@@ -379,6 +469,23 @@ def realise(rc):
             rd = R.Reader(sig)
             r_, s_ = rd.mpint(), rd.mpint()
             blob = _join(alg, _inner(mut[1], r_, s_, K.curve_order(ref_public(rc["signer"]).curve)))
+    elif kind == "reenc":
+        if cls == "ECDSAKey":
+            rd = R.Reader(sig)
+            bodies = {"r": rd.string(), "s": rd.string()}
+            for t in ("r", "s") if mut[1] == "both" else (mut[1],):
+                new = _reenc(bodies[t], mut[2])
+                if new is None:
+                    applied = False
+                else:
+                    bodies[t] = new
+            blob = _join(alg, R.string(bodies["r"]) + R.string(bodies["s"]))
+        else:  # RSA (the signature is one integer, RFC 8017 I2OSP form) / Ed25519 (fixed 64 bytes)
+            new = _reenc(sig, mut[2])
+            if new is None:
+                applied = False
+            else:
+                blob = _join(alg, new)
     elif kind == "inner-raw":
         blob = _join(alg, bytes(mut[1]))
     elif kind == "inner-lenfield":
@@ -474,6 +581,8 @@ def _simpler(rc):
         out.append(dict(rc, verifier=rc["signer"]))
     if rc["alg"] is not None:
         out.append(dict(rc, alg=None))
+    if rc.get("sel", "any") != "any":
+        out.append(dict(rc, sel="any"))
     if rc["mut"][0] in ("flip", "trunc") and rc["mut"][1] != 0:
         out.append(dict(rc, mut=[rc["mut"][0], 0] + list(rc["mut"][2:])))
     return out
@@ -507,16 +616,27 @@ class _State:
 
 
 def execute(ctx, rc, state):
-    data, blob, applied = realise(rc)
+    info = {}
+    data, blob, applied = realise(rc, info)
     if not applied:
         ctx.count("mutation-not-applicable")
+    if not info["sel_found"]:
+        ctx.count("selection-not-found:" + info["sel"])
+    extra = ["genuine-shape:%s:%s" % (key_class(rc["signer"]), x) for x in sorted(info.get("shape", ()))]
+    if info["sel"] != "any":
+        extra.append("sel:" + info["sel"])
+    if rc["mut"][0] == "reenc" and applied:
+        extra.append("reenc:%s:%s" % (key_class(rc["signer"]), rc["mut"][2]))
+    if not isinstance(rc["signer"], str) and rc["signer"][0] == "ec":
+        lx, ly = KM.ec_coord_shape(ref_private(rc["signer"]).public_key())
+        extra.append("signer-ec-coord:" + ("short" if lx or ly else "full"))
     trivial = rc["mut"][0] == "none" and rc["data"] == "same" and rc["verifier"] == rc["signer"] and rc["vprov"] == rc["sprov"]
     case = {"recipe": rc, "data": data, "blob": blob}
     ident = {"verifier": rc["verifier"], "vprov": rc["vprov"], "data": data, "blob": blob}
     ctx.case(
         ident,
         not trivial,
-        ["signer:%s:%s" % (key_class(rc["signer"]), rc["sprov"]), "verifier:%s:%s" % (key_class(rc["verifier"]), rc["vprov"]), "mut:" + rc["mut"][0], "data:" + rc["data"]],
+        ["signer:%s:%s" % (key_class(rc["signer"]), rc["sprov"]), "verifier:%s:%s" % (key_class(rc["verifier"]), rc["vprov"]), "mut:" + rc["mut"][0], "data:" + rc["data"]] + extra,
     )
     if key_class(rc["verifier"]) == "ECDSAKey" and _amplified(blob):
         ctx.exclude("ecdsa-mpint-padded-beyond-64KiB")
